@@ -1,18 +1,355 @@
-//! Allocation-contract checks (C10) and quiescent-point probes (C07, C08, C31).
+//! Allocation-contract checks (C10) and quiescent-point probes (C07, C08, C31, C09, C38).
 
+use crate::obj;
+use crate::vm::*;
+use crate::world::{violation, with_world, World};
+use mmtk::memory_manager as mm;
 use mmtk::util::alloc::AllocationOptions;
+use mmtk::util::verif::introspect::{self, GcInfo};
 use mmtk::util::Address;
+use std::collections::BTreeMap;
 
+/// C10: the out-of-memory / allocation-option contract, checked over the history of one call.
 #[allow(clippy::too_many_arguments)]
 pub fn after_alloc(
-    _mid: usize,
-    _opts: &Option<AllocationOptions>,
-    _addr: Address,
-    _size: usize,
-    _pauses_before: u64,
-    _oom_before: usize,
-    _step_before: u64,
+    mid: usize,
+    opts: &Option<AllocationOptions>,
+    addr: Address,
+    size: usize,
+    pauses_before: u64,
+    oom_before: usize,
+    blocks_before: u64,
 ) {
+    let o = opts.unwrap_or(AllocationOptions {
+        allow_overcommit: false,
+        at_safepoint: true,
+        allow_oom_call: true,
+    });
+    with_world(|w| {
+        let my_tls = TLS_MUTATOR_BASE + mid;
+        let ooms: Vec<(usize, u64, u64)> = w.oom_events[oom_before..]
+            .iter()
+            .filter(|e| e.0 == my_tls)
+            .cloned()
+            .collect();
+        let blocked = w.block_counts[mid] - blocks_before;
+        let heap = w.spec.cfg.dynamic_heap.map(|d| d.1).unwrap_or(w.spec.cfg.heap_bytes);
+        if !ooms.is_empty() {
+            w.count("oom_callbacks_seen_by_allocs");
+            if !o.allow_oom_call {
+                violation(
+                    "C10",
+                    "oom-call-not-allowed",
+                    format!("alloc(size {}) with allow_oom_call=false called out_of_memory", size),
+                );
+            }
+            if !addr.is_zero() {
+                violation(
+                    "C10",
+                    "oom-then-nonnull",
+                    format!("alloc(size {}) called out_of_memory but returned {:?}", size, addr),
+                );
+            }
+            let oversized = size > heap;
+            for e in ooms.iter() {
+                if !oversized && e.2 <= pauses_before && w.plan.collects {
+                    violation(
+                        "C10",
+                        "oom-without-gc",
+                        format!(
+                            "alloc(size {}) called out_of_memory although no collection completed since the call started (pauses {} -> {})",
+                            size, pauses_before, e.2
+                        ),
+                    );
+                }
+                if oversized && blocked > 0 {
+                    violation(
+                        "C10",
+                        "oversized-blocked",
+                        format!("alloc(size {}) larger than the heap ({}) blocked for GC {} times", size, heap, blocked),
+                    );
+                }
+            }
+            if ooms.len() > 1 {
+                violation(
+                    "C10",
+                    "oom-twice",
+                    format!("alloc(size {}) called out_of_memory {} times", size, ooms.len()),
+                );
+            }
+        }
+        if !o.at_safepoint && blocked > 0 {
+            violation(
+                "C10",
+                "blocked-outside-safepoint",
+                format!("alloc(size {}) with at_safepoint=false called block_for_gc {} times", size, blocked),
+            );
+        }
+        if o.allow_overcommit && blocked > 0 {
+            violation(
+                "C10",
+                "overcommit-blocked",
+                format!("alloc(size {}) with allow_overcommit=true called block_for_gc {} times", size, blocked),
+            );
+        }
+        if opts.is_some() {
+            w.count(&format!(
+                "allocopt_oc{}_sp{}_oom{}_{}",
+                o.allow_overcommit as u8,
+                o.at_safepoint as u8,
+                o.allow_oom_call as u8,
+                if addr.is_zero() { "null" } else { "ok" }
+            ));
+        }
+    });
 }
 
-pub fn end_of_run() {}
+/// Probes at a quiescent point (world stopped, inside resume_mutators).
+pub fn at_resume(w: &mut World, found: &BTreeMap<u64, usize>, info: GcInfo) {
+    // C09 / C38 raw material: heap numbers after every pause
+    let used = mm::used_bytes(mmtk());
+    let total = mm::total_bytes(mmtk());
+    w.used_after_gc.push((w.pause.n, used, total));
+    check_heap_size(w, total, "after a GC");
+    let full_stw = w.plan.collects && info.nursery != Some(true) && matches!(info.pause, 0 | 1);
+    if w.probe_requested || w.end_phase {
+        if full_stw {
+            w.probe_requested = false;
+            object_probes(w, found, true);
+        } else {
+            object_probes(w, found, false);
+        }
+    }
+}
+
+pub fn check_heap_size(w: &mut World, total_bytes: usize, when: &str) {
+    match w.spec.cfg.dynamic_heap {
+        Some((min, max)) => {
+            let minp = min >> 12;
+            let maxp = max >> 12;
+            let p = total_bytes >> 12;
+            if p < minp || p > maxp {
+                violation(
+                    "C38",
+                    "heap-size-out-of-bounds",
+                    format!("{}: current heap size is {} pages, outside DynamicHeapSize [{}, {}] pages", when, p, minp, maxp),
+                );
+            }
+            w.count("heap_size_checks_dynamic");
+        }
+        None => {
+            if total_bytes >> 12 != w.spec.cfg.heap_bytes >> 12 {
+                violation(
+                    "C38",
+                    "fixed-heap-size-changed",
+                    format!("{}: heap size is {} bytes, FixedHeapSize is {}", when, total_bytes, w.spec.cfg.heap_bytes),
+                );
+            }
+        }
+    }
+}
+
+/// C07 (enumeration), C08 (is_mmtk_object / interior pointers), C31 (address -> space).
+#[allow(unused_variables)]
+pub fn object_probes(w: &mut World, found: &BTreeMap<u64, usize>, exact_enumeration: bool) {
+    // model survivors: found ∪ objects of never-collected spaces that are unreachable
+    let mut expect: BTreeMap<usize, u64> = BTreeMap::new();
+    for (id, a) in found.iter() {
+        expect.insert(*a, *id);
+    }
+    for id in w.immortal_dead.iter() {
+        expect.insert(w.objs[id].addr, *id);
+    }
+    #[cfg(any(feature = "var_a", feature = "var_b"))]
+    {
+        // ---- C07
+        if exact_enumeration && w.fin_registered.values().all(|n| *n == 0) {
+            let mut seen: BTreeMap<usize, u32> = BTreeMap::new();
+            mmtk().enumerate_objects(|o| {
+                *seen.entry(o.to_raw_address().as_usize()).or_insert(0) += 1;
+            });
+            for (a, n) in seen.iter() {
+                if *n != 1 {
+                    violation(
+                        "C07",
+                        "enumerated-twice",
+                        format!("enumerate_objects visited {:#x} {} times", a, n),
+                    );
+                }
+                if !expect.contains_key(a) {
+                    let h = obj::read_hdr(unsafe { Address::from_usize(*a - obj::REF_OFFSET) });
+                    violation(
+                        "C07",
+                        "enumerated-dead-object",
+                        format!(
+                            "after exhaustive GC (pause {}): enumerate_objects reports {:#x} (header {:?}, space {}) which is not a surviving object",
+                            w.pause.n,
+                            a,
+                            h,
+                            introspect::sft_name(unsafe { Address::from_usize(*a) })
+                        ),
+                    );
+                }
+            }
+            for (a, id) in expect.iter() {
+                if !seen.contains_key(a) {
+                    violation(
+                        "C07",
+                        "survivor-not-enumerated",
+                        format!("after exhaustive GC (pause {}): surviving object {} at {:#x} is not reported by enumerate_objects", w.pause.n, id, a),
+                    );
+                }
+            }
+            w.count("enumerations_exact");
+            w.count_n("enumerated_objects", seen.len() as u64);
+        }
+        // ---- C08: sample of objects
+        let mut n = 0;
+        let stride = (expect.len() / 64).max(1);
+        for (i, (a, id)) in expect.iter().enumerate() {
+            if i % stride != 0 {
+                continue;
+            }
+            n += 1;
+            let o = &w.objs[id];
+            let start = *a - obj::REF_OFFSET;
+            let end = start + o.size;
+            let addr = |x: usize| unsafe { Address::from_usize(x) };
+            match mm::is_mmtk_object(addr(*a)) {
+                Some(r) if r.to_raw_address().as_usize() == *a => {}
+                other => violation(
+                    "C08",
+                    "valid-object-rejected",
+                    format!("is_mmtk_object({:#x}) = {:?} for live object {}", a, other, id),
+                ),
+            }
+            // words inside the object that are not a reference of another object
+            for p in [*a + 8, *a + 16, end - 8] {
+                if p >= end || p == *a || expect.contains_key(&p) {
+                    continue;
+                }
+                if let Some(r) = mm::is_mmtk_object(addr(p)) {
+                    violation(
+                        "C08",
+                        "interior-word-accepted",
+                        format!("is_mmtk_object({:#x}) = {:?}, but that is an interior word of object {} at {:#x}", p, r, id, a),
+                    );
+                }
+                // interior pointer lookup
+                let max = o.size + 64;
+                match mm::find_object_from_internal_pointer(addr(p), max) {
+                    Some(r) if r.to_raw_address().as_usize() == *a => {}
+                    other => violation(
+                        "C08",
+                        "interior-pointer-wrong",
+                        format!("find_object_from_internal_pointer({:#x}, {}) = {:?}, expected object {} at {:#x} (size {})", p, max, other, id, a, o.size),
+                    ),
+                }
+                // a search window too small to reach the reference must fail
+                // (The large object space applies the window at page granularity -- the window is a
+                // search-cost bound there -- so the negative direction is only asserted elsewhere.)
+                if p - *a >= 16 && !matches!(o.space, "los" | "pageprotect") {
+                    let small = p - *a - 8;
+                    if let Some(r) = mm::find_object_from_internal_pointer(addr(p), small) {
+                        if r.to_raw_address().as_usize() == *a {
+                            violation(
+                                "C08",
+                                "interior-pointer-beyond-window",
+                                format!("find_object_from_internal_pointer({:#x}, {}) found {:#x} which is {} bytes below", p, small, a, p - *a),
+                            );
+                        }
+                    }
+                }
+            }
+            // the pointer itself resolves to the object
+            match mm::find_object_from_internal_pointer(addr(*a), 0usize.max(8)) {
+                Some(r) if r.to_raw_address().as_usize() == *a => {}
+                other => violation(
+                    "C08",
+                    "interior-pointer-wrong",
+                    format!("find_object_from_internal_pointer({:#x}, 8) = {:?}, expected the object itself ({})", a, other, id),
+                ),
+            }
+            // one word past the end belongs to someone else or nobody
+            if !expect.contains_key(&end) && !expect.contains_key(&(end + obj::REF_OFFSET)) {
+                if let Some(r) = mm::find_object_from_internal_pointer(addr(end + obj::REF_OFFSET), 8) {
+                    if r.to_raw_address().as_usize() == *a {
+                        violation(
+                            "C08",
+                            "past-the-end-resolves",
+                            format!("find_object_from_internal_pointer({:#x}, 8) returned object {} whose range ends at {:#x}", end + obj::REF_OFFSET, id, end),
+                        );
+                    }
+                }
+            }
+        }
+        w.count_n("c08_objects_probed", n);
+        // addresses outside MMTk memory must not panic and must be rejected
+        for p in [8usize, 0x1000, 0x7fff_ffff_f000, usize::MAX & !7, w.spec.cfg.meta_base + 4096] {
+            if mm::is_mmtk_object(unsafe { Address::from_usize(p) }).is_some() {
+                violation("C08", "outside-address-accepted", format!("is_mmtk_object({:#x}) accepted an address outside the heap", p));
+            }
+            if mm::find_object_from_internal_pointer(unsafe { Address::from_usize(p) }, 4096).is_some() {
+                violation("C08", "outside-address-accepted", format!("find_object_from_internal_pointer({:#x}) found an object outside the heap", p));
+            }
+        }
+    }
+    // ---- C31: address -> space resolution agrees with where the object was allocated
+    let spaces = introspect::spaces(mmtk());
+    let mut checked = 0u64;
+    for (a, id) in expect.iter() {
+        let o = &w.objs[id];
+        let name = introspect::sft_name(unsafe { Address::from_usize(*a) });
+        // moved objects change space; only check never-moving semantics against their space
+        let stable = matches!(o.sem, crate::spec::SEM_IMMORTAL | crate::spec::SEM_LOS | crate::spec::SEM_NONMOVING) || !w.plan.moves;
+        if stable && name != o.space {
+            violation(
+                "C31",
+                "sft-space-changed",
+                format!("object {} at {:#x} was allocated in '{}' but the SFT map now resolves it to '{}'", id, a, o.space, name),
+            );
+        }
+        if name == "empty" || name.is_empty() {
+            violation(
+                "C31",
+                "live-object-in-empty-space",
+                format!("live object {} at {:#x} resolves to the empty SFT", id, a),
+            );
+        }
+        if let Some(si) = spaces.iter().find(|s| s.name == name) {
+            match introspect::descriptor_index(unsafe { Address::from_usize(*a) }) {
+                Some(ix) if ix == si.index => {}
+                other => violation(
+                    "C31",
+                    "descriptor-disagrees",
+                    format!("address {:#x}: SFT says space '{}' (index {}), VM map descriptor index is {:?}", a, name, si.index, other),
+                ),
+            }
+        }
+        let oref = obj::raw_to_ref(*a).unwrap();
+        if !mm::is_in_mmtk_spaces(oref) {
+            violation("C31", "live-object-not-in-spaces", format!("is_in_mmtk_spaces({:#x}) is false for live object {}", a, id));
+        }
+        checked += 1;
+    }
+    for p in [8usize, 0x10_0000, 0x7fff_ffff_f000, w.spec.cfg.meta_base + 4096] {
+        let a = unsafe { Address::from_usize(p) };
+        let name = introspect::sft_name(a);
+        if name != "empty" {
+            violation("C31", "outside-address-in-space", format!("address {:#x} outside the heap resolves to space '{}'", p, name));
+        }
+        if let Some(r) = obj::raw_to_ref(p) {
+            if mm::is_in_mmtk_spaces(r) {
+                violation("C31", "outside-address-in-space", format!("is_in_mmtk_spaces({:#x}) is true outside the heap", p));
+            }
+        }
+    }
+    w.count_n("c31_addresses_checked", checked);
+}
+
+pub fn end_of_run() {
+    with_world(|w| {
+        let found = crate::oracle::end_of_run_walk(w);
+        object_probes(w, &found, false);
+    });
+}
